@@ -115,7 +115,7 @@ func TestVerifC03Receipts(t *testing.T) {
 					o := cmds[rapid.IntRange(0, len(cmds)-1).Draw(rt, "retryOf")]
 					wasAcked := o.cmd.acked
 					_, err := s.commit(o.cmd)
-					if wasAcked && err != nil && !errors.Is(err, ch.ErrBackpressured) {
+					if wasAcked && err != nil && !errors.Is(err, ch.ErrBackpressured) && !errors.Is(err, ch.ErrNotReady) {
 						s.fail("C03", "exact-retry-refused", "exact retry of acknowledged command %x returned %v", o.cmd.proposal.CommandID[28:], err)
 					}
 					if err == nil && wasAcked {
@@ -185,7 +185,9 @@ func TestVerifC03Receipts(t *testing.T) {
 					if err == nil {
 						s.fail("C03", "conflicting-retry-acknowledged", "command %x reused with different %s was acknowledged: %+v", p.CommandID[28:], field, r)
 					}
-					if errors.Is(err, ch.ErrBackpressured) {
+					if errors.Is(err, ch.ErrBackpressured) || errors.Is(err, ch.ErrNotReady) {
+						// refused for a reason that precedes the content comparison (another
+						// proposal pending, or the channel could not be re-installed)
 						continue
 					}
 					if !errors.Is(err, ch.ErrLogConflict) {
